@@ -96,6 +96,9 @@ mod pathset;
 pub(crate) mod reliability;
 /// Path fetcher traits and types.
 pub mod traits;
+/// Verification hooks (step-driven path set with injected clock); off by default.
+#[cfg(feature = "verif-hooks")]
+pub mod verif;
 
 /// Configuration for the `MultiPathManager`.
 #[derive(Debug, Clone, Copy)]
